@@ -498,6 +498,9 @@ func (fc *FnCtx) applyContractX(c *Contract, name string, args []V, sig *types.S
 	env := fc.newEnv(fc.cur, fc.cur)
 	env.vars = map[string]V{}
 	env.contract = c
+	if p := fc.e.byName[c.Pkg]; c.Pkg != "" && p != nil {
+		env.pkg = p // names in a contract resolve in the package the contract was written in
+	}
 	for k, v := range extra {
 		env.vars[k] = v
 	}
@@ -538,6 +541,7 @@ func (fc *FnCtx) applyContractX(c *Contract, name string, args []V, sig *types.S
 	env2 := fc.newEnv(fc.cur, old)
 	env2.vars = env.vars
 	env2.contract = c
+	env2.pkg = env.pkg
 	env2.oldAc = old.ac
 	if tup, ok := resTy.(*types.Tuple); ok {
 		for i := 0; i < tup.Len(); i++ {
@@ -567,6 +571,9 @@ func (fc *FnCtx) applyContractX(c *Contract, name string, args []V, sig *types.S
 			continue
 		}
 		env3 := fc.newEnv(fc.cur, old)
+		if p := fc.e.byName[ic.Pkg]; ic.Pkg != "" && p != nil {
+			env3.pkg = p
+		}
 		env3.vars = map[string]V{}
 		env3.oldAc = old.ac
 		names := ic.Params
